@@ -239,18 +239,39 @@ package keeper
 // ---------------------------------------------------------------------------------------------
 // Binding deposits (C07): the deposit escrow moves by exactly what the binding records
 
+// a pricing has a price (one coin, non-negative): established by ParsePricing when a binding is made or re-priced
+//@ define pricingOK(p) = len(p.Price) > 0 && (forall d:Str :: amt(p.Price, d) >= 0)
+//@ define pricingsWF = (forall s:Str :: forall a:Bytes :: has(pricings, s, a) ==> pricingOK(get(pricings, s, a)))
+// ... and every binding of a provider is filed under its own service name and provider and has a pricing (a binding
+// without provider - what Slash writes back when a request names no stored binding - is never available)
+//@        && (forall s:Str :: forall a:Bytes :: has(bindings, s, a) ==> get(bindings, s, a).ServiceName == s
+//@              && (get(bindings, s, a).Available ==> get(bindings, s, a).Provider != "")
+//@              && (get(bindings, s, a).Provider != "" ==> has(pricings, s, a) && bechok(get(bindings, s, a).Provider) && addr(get(bindings, s, a).Provider) == a))
 // pricing string -> Pricing (JSON, denomination check against the base denom), minimum deposit and deposit shape:
 // assumed contracts (pure reads of parameters)
 //@ func Keeper.ParsePricing
 //@   property C07
 //@   trusted
 //@   returns p, err
+//@   ensures priced: err == nil ==> pricingOK(p)
 //@   nopanic
 //@ end
-//@ func Keeper.GetMinDeposit
-//@   property C07, C13
+// The exchange rate of two denominations as served by the registered oracle module service (assumed contract: reads
+// only, and a rate that is returned without error is a positive decimal - A-RATE; the code itself only rejects zero)
+//@ func Keeper.GetExchangeRate
+//@   property C07, C13, C16
 //@   trusted
+//@   returns rate, err
+//@   ensures positive: err == nil ==> !isnil(rate) && raw(rate) > 0
+//@   nopanic
+//@ end
+// minimum deposit of a binding = max(price in the base denomination x multiple, MinDeposit): no parameter set accepted
+// by validation may make this abort (it runs in the bind / update / enable handlers and, through Slash, in the end blocker)
+//@ func Keeper.GetMinDeposit
+//@   property C07, C13, C16
 //@   returns min, err
+//@   requires has(prm) && types.paramsOK(get(prm))
+//@   requires len(pricing.Price) > 0 && (forall d:Str :: amt(pricing.Price, d) >= 0)
 //@   nopanic
 //@ end
 //@ func Keeper.validateDeposit
@@ -268,7 +289,7 @@ package keeper
 //@ func Keeper.UpdateServiceBinding
 //@   property C07
 //@   returns err
-//@   requires has(prm)
+//@   requires has(prm) && types.paramsOK(get(prm)) && pricingsWF
 //@   requires owner != DEP
 //@   requires forall d:Str :: amt(deposit, d) >= 0
 //@   requires has(bindings, serviceName, provider) ==> BIND(serviceName, provider).ServiceName == serviceName && BIND(serviceName, provider).Provider == bech(provider) && bechok(bech(provider))
@@ -477,8 +498,8 @@ package keeper
 //@ func Keeper.EnableServiceBinding
 //@   property C07
 //@   returns err
-//@   requires has(prm)
-//@   requires has(bindings, serviceName, provider) ==> BIND(serviceName, provider).ServiceName == serviceName && BIND(serviceName, provider).Provider == bech(provider) && bechok(bech(provider))
+//@   requires has(prm) && types.paramsOK(get(prm)) && pricingsWF
+//@   requires has(bindings, serviceName, provider) ==> BIND(serviceName, provider).ServiceName == serviceName && BIND(serviceName, provider).Provider == bech(provider) && bechok(bech(provider)) && bech(provider) != ""
 //@   requires owner != DEP
 //@   requires forall d:Str :: amt(deposit, d) >= 0
 //@   let b0 = BIND(serviceName, provider)
@@ -498,6 +519,7 @@ package keeper
 //@ func Keeper.Slash
 //@   property C07, C13, C16
 //@   returns err
+//@   requires types.paramsOK(get(prm)) && pricingsWF
 //@   requires has(prm) && !isnil(SLASHFRAC) && raw(SLASHFRAC) >= 0 && raw(SLASHFRAC) <= DEC_ONE && ufb("denom_valid", BASE)
 //@   requires k.feeCollectorName != "service_request_account" && k.feeCollectorName != "service_deposit_account"
 //@   requires forall s:Str :: forall p:Bytes :: forall d:Str :: has(bindings, s, p) ==> amt(BIND(s, p).Deposit, d) >= 0
@@ -517,6 +539,8 @@ package keeper
 //@   ensures keeps_nonneg: forall s:Str :: forall p:Bytes :: forall d:Str :: has(bindings, s, p) ==> amt(BIND(s, p).Deposit, d) >= 0
 //@   lemma @return depUpd(old(bindings), svc, prov, BIND(svc, prov)) if err == nil
 //@   ensures deposit_inv: wf && err == nil && old(depositInv) ==> depositInv
+//@   ensures keeps_priced: pricingsWF
+//@   by keeps_priced: req
 // no slash fraction and base denomination accepted by parameter validation may make this abort (C16; it runs in the end blocker, C13)
 //@   nopanic C13, C16
 //@ end
@@ -531,6 +555,7 @@ package keeper
 //@ func Keeper.AddServiceBinding
 //@   property C07
 //@   returns err
+//@   requires types.paramsOK(get(prm)) && pricingsWF
 //@   requires has(prm) && owner != DEP && bechok(bech(provider)) && bechok(bech(owner))
 //@   requires forall d:Str :: amt(deposit, d) >= 0
 //@   modifies bal, bindings, pricings, owners, ownerProv, ownerBind
@@ -545,7 +570,7 @@ package keeper
 
 // queue iterations of the end blocker (helpers with callbacks; inlined into EndBlocker together with the closures)
 //@ define depNonneg = forall s:Str :: forall p:Bytes :: forall d:Str :: has(bindings, s, p) ==> amt(BIND(s, p).Deposit, d) >= 0
-//@ define endBlockInv = has(prm) && !isnil(SLASHFRAC) && raw(SLASHFRAC) >= 0 && raw(SLASHFRAC) <= DEC_ONE && ufb("denom_valid", BASE) && depNonneg
+//@ define endBlockInv = has(prm) && types.paramsOK(get(prm)) && pricingsWF && !isnil(SLASHFRAC) && raw(SLASHFRAC) >= 0 && raw(SLASHFRAC) <= DEC_ONE && ufb("denom_valid", BASE) && depNonneg
 //@ func Keeper.IterateExpiredRequestBatch
 //@   inline
 //@   invariant #1 inv: endBlockInv
